@@ -417,6 +417,48 @@ func (e *didEnv) monC11Genesis() {
 	}))
 }
 
+// monC11GenesisKeySpelling: a genesis entry whose *key* is a spelling variant of the DID its document describes
+// (surrounding white space, a trailing newline, upper case, a repeated prefix).  Either the module's genesis validation
+// refuses it, or — whatever got into the registry — every stored identifier resolves to a document about itself.
+func (e *didEnv) monC11GenesisKeySpelling() {
+	ka := newDidKey("gen-spell")
+	did := didtypes.NewDID(ka.pub)
+	for _, v := range []struct{ name, key string }{
+		{"trailing-newline", did + "\n"}, {"leading-space", " " + did}, {"trailing-space", did + " "}, {"tab-crlf", "\t" + did + "\r\n"},
+		{"upper-case-method", "DID:PANACEA:" + did[len("did:panacea:"):]}, {"nul", did + "\x00"},
+	} {
+		v := v
+		e.s.Emit("mon.c11.genesis-key-spelling "+v.name, guard(func() string {
+			vmID := did + "#key1"
+			vm := &didtypes.VerificationMethod{Id: vmID, Type: didtypes.ES256K_2019, Controller: did, PublicKeyBase58: ka.b58}
+			doc := didtypes.NewDIDDocument(did, didtypes.WithVerificationMethods([]*didtypes.VerificationMethod{vm}),
+				didtypes.WithAuthentications([]didtypes.VerificationRelationship{rel(vmID)}))
+			w := didtypes.NewDIDDocumentWithSeq(&doc, 0)
+			gs := didtypes.GenesisState{Documents: map[string]*didtypes.DIDDocumentWithSeq{v.key: &w}}
+			if err := gs.Validate(); err != nil {
+				return "pass #rejected-by-genesis-validation"
+			}
+			bz, err := e.c.App.AppCodec().MarshalJSON(&gs)
+			if err != nil {
+				return "pass #not-encodable"
+			}
+			c2, err := NewChain(memDB(), tmpHome(), nil, 0, map[string]json.RawMessage{didtypes.ModuleName: bz})
+			if err != nil {
+				return "pass #rejected-by-init-genesis"
+			}
+			c2.Begin(c2.Time)
+			ctx := c2.DeliverCtx()
+			for _, stored := range c2.App.DidKeeper.ListDIDs(ctx) {
+				d := c2.App.DidKeeper.GetDIDDocument(ctx, stored)
+				if d.Document != nil && !d.Document.Empty() && d.Document.Id != stored {
+					return "fail #registry-holds-a-document-about-another-did"
+				}
+			}
+			return "pass"
+		}))
+	}
+}
+
 func (e *didEnv) dump() {
 	e.s.Emit("did.dump", guard(func() string {
 		k := e.c.App.DidKeeper
@@ -871,6 +913,7 @@ func init() {
 		ids, rel := mkIdents()
 		e.monC03UTF8()
 		e.monC11Genesis()
+		e.monC11GenesisKeySpelling()
 		e.monC05GenesisSeqWrap()
 		for h := 0; h < n; h++ {
 			didHistory(e, rng, ids, rel, 15+rng.Intn(30))
